@@ -102,7 +102,13 @@ class WaitingSender(explore.Scenario):
         rt.observations["results"] = results
         rt.observations["k"] = k
 
+        stagger = self.params.get("stagger", 0)
+        think = self.params.get("think", 0)
+        tm = shims.make_time()
+
         def caller(i):
+            if stagger and i:
+                tm.sleep(stagger * i)        # callers arriving one after the other, not all at once
             req = make_request(i)
             ans = app.send_message(req)
             results[i] = (ans.header.get_hop_by_hop(), id(ans)) if ans is not None else None
@@ -116,6 +122,8 @@ class WaitingSender(explore.Scenario):
                 if eager:
                     req = outbox.get()
                     seen[req.header.get_hop_by_hop() - 0x0a000000] = req
+                    if think:
+                        tm.sleep(think)      # the peer takes its time to answer
                 else:
                     while len(seen) < k:
                         req = outbox.get()
@@ -183,6 +191,14 @@ def scenarios(tier):
             for eager in (True, False):
                 for unsolicited in ((False, True) if k <= 2 else (False,)):
                     yield WaitingSender(k=k, order=list(order), eager=eager, unsolicited=unsolicited)
+            if k >= 2:
+                # later callers arrive while earlier answers are being dispatched (eager peer only: a lazy
+                # peer waits for all requests anyway)
+                yield WaitingSender(k=k, order=list(order), eager=True, unsolicited=False, stagger=0.4)
+                if list(order) == sorted(order):
+                    # ... and a peer that needs a second per answer: a late caller registers while an earlier
+                    # answer is still being handed over, and is answered after that hand-over has ended
+                    yield WaitingSender(k=k, order=list(order), eager=True, unsolicited=False, stagger=2.5, think=1.0)
 
 
 def bound_for(scn, tier):
